@@ -236,7 +236,7 @@ impl SValue {
         match v {
             Self::Int(vi) => {
                 let si = self.to_i();
-                return Self::Int(si + vi);
+                return Self::Int(si.wrapping_add(vi));
             },
             _ => {},
         }
